@@ -1242,14 +1242,35 @@ pub mod bak {
         w.commit()
     }
 
-    /// Restore into a fresh backend and start a query server on it (`initialise_helper` at `now`,
-    /// as a normal server start does).
-    pub async fn restore_and_start(data: &[u8], gzip: bool, now: Duration) -> Result<QueryServer, OperationError> {
+    /// Restore into a fresh in-memory backend (not yet started).
+    pub fn restore_fresh(data: &[u8], gzip: bool) -> Result<(Backend, Schema), OperationError> {
         let (be, schema) = fresh_backend()?;
         restore_into(&be, data, gzip)?;
+        Ok((be, schema))
+    }
+
+    /// Start a query server on a restored backend (`initialise_helper` at `now`, as a normal server start does).
+    pub async fn start(be: Backend, schema: Schema, now: Duration) -> Result<QueryServer, OperationError> {
         let qs = QueryServer::new(be, schema, srv::DOMAIN.to_string(), now)?;
         qs.initialise_helper(now, DOMAIN_TGT_LEVEL).await?;
         Ok(qs)
+    }
+
+    /// Restore into a fresh backend and start a query server on it.
+    pub async fn restore_and_start(data: &[u8], gzip: bool, now: Duration) -> Result<QueryServer, OperationError> {
+        let (be, schema) = restore_fresh(data, gzip)?;
+        start(be, schema, now).await
+    }
+
+    /// A file-backed backend at `path` (pool 1) with the core schema's index metadata.
+    pub fn file_backend(path: &std::path::Path) -> Result<(Backend, Schema), OperationError> {
+        let schema = Schema::new()?;
+        let idxmeta = {
+            let w = schema.write();
+            w.reload_idxmeta()
+        };
+        let cfg = BackendConfig::new(Some(path), 1, FsType::Generic, Some(2048));
+        Ok((Backend::new(cfg, idxmeta, false)?, schema))
     }
 }
 
@@ -1798,5 +1819,343 @@ pub mod e2e {
             log.class(format!("e2e-syntax:{k}"));
         }
         log.finish()
+    }
+}
+
+// =================================================================================================
+/// C03: from-scratch reference index and name tables, compared with the raw tables.
+pub mod idx {
+    use crate::dump::{self, Status};
+    use crate::inv::E;
+    use kanidmd_lib::be::BackendTransaction;
+    use kanidmd_lib::prelude::*;
+    use kanidmd_lib::value::IndexType;
+    use kanidmd_lib::verif_hooks::storage as hk;
+    use std::collections::{BTreeMap, BTreeSet};
+
+    pub type Key = (Attribute, IndexType);
+    pub type IndexModel = BTreeMap<Key, BTreeMap<String, BTreeSet<u64>>>;
+
+    pub fn table_name(k: &Key) -> String {
+        format!("idx_{}_{}", k.1.as_idx_str(), k.0.as_str())
+    }
+
+    /// The index a from-scratch build over `entries` would contain for the index keys `meta`.
+    /// Every stored entry counts (recycled entries and tombstones are indexed for what they hold).
+    pub fn reference_index(meta: &[Key], entries: &[E]) -> IndexModel {
+        let mut m: IndexModel = BTreeMap::new();
+        for k in meta {
+            let t = m.entry(k.clone()).or_default();
+            for e in entries {
+                let Some(vs) = e.get_ava_set(&k.0) else { continue };
+                if vs.is_empty() {
+                    continue;
+                }
+                let keys: Vec<String> = match k.1 {
+                    IndexType::Equality => vs.generate_idx_eq_keys(),
+                    IndexType::Presence => vec!["_".to_string()],
+                    IndexType::SubString => vs.generate_idx_sub_keys(),
+                    IndexType::Ordering => vs.generate_idx_ord_keys(),
+                };
+                for key in keys {
+                    t.entry(key).or_default().insert(e.get_id());
+                }
+            }
+        }
+        m
+    }
+
+    #[derive(Debug, Default, PartialEq, Eq)]
+    pub struct NameModel {
+        pub name2uuid: BTreeMap<String, Uuid>,
+        /// names claimed by more than one live entry (expectation undefined; skipped)
+        pub ambiguous: BTreeSet<String>,
+        pub externalid2uuid: BTreeMap<String, Uuid>,
+        pub uuid2spn: BTreeMap<Uuid, String>,
+        pub uuid2rdn: BTreeMap<Uuid, String>,
+    }
+
+    fn single_proto(e: &E, a: Attribute) -> Option<String> {
+        let vs = e.get_ava_set(a)?;
+        if vs.len() != 1 {
+            return None;
+        }
+        vs.to_proto_string_clone_iter().next()
+    }
+
+    /// Rendering used to compare uuid2spn values (Spn / Iname / Uuid) without kanidm's
+    /// cross-type `PartialEq` (which debug-asserts).
+    pub fn spn_value_repr(v: &Value) -> String {
+        match v {
+            Value::Spn(n, d) => format!("spn:{n}@{d}"),
+            Value::Iname(n) => format!("iname:{n}"),
+            Value::Uuid(u) => format!("uuid:{u}"),
+            other => format!("other:{other:?}"),
+        }
+    }
+
+    /// Name tables rebuilt from the live (neither recycled nor tombstone) entries.
+    pub fn reference_names(entries: &[E]) -> NameModel {
+        let mut m = NameModel::default();
+        for e in entries {
+            if matches!(dump::status_of(e), Status::Recycled | Status::Tombstone) || e.has_class(&EntryClass::Recycled) {
+                continue;
+            }
+            let u = e.get_uuid();
+            for a in [Attribute::Spn, Attribute::Name, Attribute::GidNumber] {
+                if let Some(vs) = e.get_ava_set(a) {
+                    for s in vs.to_proto_string_clone_iter() {
+                        match m.name2uuid.get(&s) {
+                            Some(prev) if *prev != u => {
+                                m.ambiguous.insert(s);
+                            }
+                            _ => {
+                                m.name2uuid.insert(s, u);
+                            }
+                        }
+                    }
+                }
+            }
+            if let Some(x) = single_proto(e, Attribute::SyncExternalId) {
+                m.externalid2uuid.insert(x, u);
+            }
+            let spn = e.get_ava_set(Attribute::Spn).filter(|v| v.len() == 1).and_then(|v| v.to_value_iter().next());
+            let name = e.get_ava_set(Attribute::Name).filter(|v| v.len() == 1).and_then(|v| v.to_value_iter().next());
+            let sv = spn.clone().or(name.clone()).unwrap_or(Value::Uuid(u));
+            m.uuid2spn.insert(u, spn_value_repr(&sv));
+            let rdn = match (single_proto(e, Attribute::Spn), single_proto(e, Attribute::Name)) {
+                (Some(s), _) => format!("spn={s}"),
+                (None, Some(n)) => format!("name={n}"),
+                (None, None) => format!("uuid={}", u.as_hyphenated()),
+            };
+            m.uuid2rdn.insert(u, rdn);
+        }
+        for a in &m.ambiguous {
+            m.name2uuid.remove(a);
+        }
+        m
+    }
+
+    /// Raw content of all index tables named by `meta`: table -> key -> ids (empty id lists dropped
+    /// but counted).
+    pub struct Raw {
+        pub tables: BTreeSet<String>,
+        pub content: BTreeMap<Key, BTreeMap<String, BTreeSet<u64>>>,
+        pub empty_keys: usize,
+    }
+
+    pub fn raw_index(r: &mut QueryServerReadTransaction<'_>, meta: &[Key]) -> Result<Raw, String> {
+        let be = r.get_be_txn();
+        let tables: BTreeSet<String> = be.list_indexes().map_err(|e| format!("list_indexes {e:?}"))?.into_iter().collect();
+        let mut content = BTreeMap::new();
+        let mut empty_keys = 0;
+        for k in meta {
+            let name = table_name(k);
+            if !tables.contains(&name) {
+                continue;
+            }
+            let rows = be.list_index_content(&name).map_err(|e| format!("list_index_content {name} {e:?}"))?;
+            let mut t: BTreeMap<String, BTreeSet<u64>> = BTreeMap::new();
+            for (key, idl) in rows {
+                let ids: BTreeSet<u64> = (&idl).into_iter().collect();
+                if ids.is_empty() {
+                    empty_keys += 1;
+                } else {
+                    t.insert(key, ids);
+                }
+            }
+            content.insert(k.clone(), t);
+        }
+        Ok(Raw { tables, content, empty_keys })
+    }
+
+    pub const SIG_TABLE_MISSING: &str = "index table of a live index key is missing";
+    pub const SIG_IDX_MISSING: &str = "index lacks an id that a stored entry produces";
+    pub const SIG_IDX_STALE: &str = "index holds an id that no stored entry produces";
+    pub const SIG_IDX_CACHE: &str = "index as seen through the cache differs from the stored table";
+    pub const SIG_N2U: &str = "name2uuid table differs from the live entries";
+    pub const SIG_E2U: &str = "externalid2uuid table differs from the live entries";
+    pub const SIG_U2S: &str = "uuid2spn table differs from the live entries";
+    pub const SIG_U2R: &str = "uuid2rdn table differs from the live entries";
+    pub const SIG_LOOKUP: &str = "name lookup disagrees with a scan of the entries";
+    pub const SIG_VERIFY: &str = "server verify() reports inconsistencies";
+
+    fn text(v: &[u8]) -> String {
+        String::from_utf8_lossy(v).to_string()
+    }
+
+    pub struct Stats {
+        pub keys: usize,
+        pub ids: usize,
+        pub names: usize,
+        /// verify() findings that are not about storage / indexes (variant names)
+        pub other_verify: BTreeSet<String>,
+    }
+
+    /// Complete comparison for one committed state. Returns the first discrepancy.
+    /// `absent_probe`: names that must resolve to nothing unless a live entry carries them.
+    pub fn check_state(r: &mut QueryServerReadTransaction<'_>, entries: &[E], absent_probe: &[String]) -> Result<Stats, (&'static str, String)> {
+        let meta: Vec<Key> = hk::be::idxmeta_keys(r.get_be_txn());
+        let want = reference_index(&meta, entries);
+        let raw = raw_index(r, &meta).map_err(|e| ("harness: raw index read failed", e))?;
+        let mut stats = Stats { keys: 0, ids: 0, names: 0, other_verify: BTreeSet::new() };
+        for k in &meta {
+            let Some(have) = raw.content.get(k) else {
+                return Err((SIG_TABLE_MISSING, format!("{} (index key {:?})", table_name(k), k)));
+            };
+            let w = want.get(k).cloned().unwrap_or_default();
+            for (key, ids) in &w {
+                stats.keys += 1;
+                stats.ids += ids.len();
+                let h = have.get(key).cloned().unwrap_or_default();
+                if let Some(m) = ids.difference(&h).next() {
+                    return Err((SIG_IDX_MISSING, format!("{} key {key:?}: id {m} expected (entry {}), table has {h:?}", table_name(k), who(entries, *m))));
+                }
+                if let Some(s) = h.difference(ids).next() {
+                    return Err((SIG_IDX_STALE, format!("{} key {key:?}: id {s} ({}) is listed but the entry does not produce this key; expected {ids:?}", table_name(k), who(entries, *s))));
+                }
+            }
+            for (key, h) in have {
+                if !w.contains_key(key) {
+                    let s = h.iter().next().copied().unwrap_or(0);
+                    return Err((SIG_IDX_STALE, format!("{} key {key:?}: ids {h:?} listed ({}) but no stored entry produces this key", table_name(k), who(entries, s))));
+                }
+            }
+        }
+        // the same through the idl cache, for every key of either side
+        {
+            let be = r.get_be_txn();
+            for k in &meta {
+                let w = want.get(k).cloned().unwrap_or_default();
+                let have = raw.content.get(k).cloned().unwrap_or_default();
+                let keys: BTreeSet<&String> = w.keys().chain(have.keys()).collect();
+                for key in keys {
+                    let got: BTreeSet<u64> = hk::be::cached_idl(be, &k.0, k.1, key)
+                        .map_err(|e| ("harness: cached idl read failed", format!("{e:?}")))?
+                        .map(|v| v.into_iter().collect())
+                        .unwrap_or_default();
+                    let exp = w.get(key).cloned().unwrap_or_default();
+                    if got != exp {
+                        return Err((SIG_IDX_CACHE, format!("{} key {key:?}: through the cache {got:?}, from the entries {exp:?}", table_name(k))));
+                    }
+                }
+            }
+        }
+        // name tables, raw
+        let names = reference_names(entries);
+        stats.names = names.name2uuid.len();
+        {
+            let be = r.get_be_txn();
+            let raw_n2u: BTreeMap<String, String> = hk::be::raw_table(be, "idx_name2uuid", "name", "uuid").map_err(|e| ("harness: raw table", format!("{e:?}")))?.into_iter().map(|(k, v)| (k, text(&v))).collect();
+            for (n, u) in &names.name2uuid {
+                match raw_n2u.get(n) {
+                    Some(x) if *x == u.as_hyphenated().to_string() => {}
+                    other => return Err((SIG_N2U, format!("name {n:?} should map to {u}, table has {other:?}"))),
+                }
+            }
+            for (n, x) in &raw_n2u {
+                if !names.name2uuid.contains_key(n) && !names.ambiguous.contains(n) {
+                    return Err((SIG_N2U, format!("stale row: name {n:?} -> {x} but no live entry carries that name")));
+                }
+            }
+            let raw_e2u: BTreeMap<String, String> = hk::be::raw_table(be, "idx_externalid2uuid", "eid", "uuid").map_err(|e| ("harness: raw table", format!("{e:?}")))?.into_iter().map(|(k, v)| (k, text(&v))).collect();
+            let want_e2u: BTreeMap<String, String> = names.externalid2uuid.iter().map(|(k, v)| (k.clone(), v.as_hyphenated().to_string())).collect();
+            if raw_e2u != want_e2u {
+                return Err((SIG_E2U, format!("table {raw_e2u:?}, from the entries {want_e2u:?}")));
+            }
+            let raw_u2s: BTreeMap<String, String> = hk::be::raw_table(be, "idx_uuid2spn", "uuid", "spn")
+                .map_err(|e| ("harness: raw table", format!("{e:?}")))?
+                .into_iter()
+                .map(|(k, v)| (k, hk::be::decode_spn(&v).map(|v| spn_value_repr(&v)).unwrap_or_else(|| format!("undecodable:{}", text(&v)))))
+                .collect();
+            let want_u2s: BTreeMap<String, String> = names.uuid2spn.iter().map(|(k, v)| (k.as_hyphenated().to_string(), v.clone())).collect();
+            if raw_u2s != want_u2s {
+                let d = first_diff(&raw_u2s, &want_u2s);
+                return Err((SIG_U2S, d));
+            }
+            let raw_u2r: BTreeMap<String, String> = hk::be::raw_table(be, "idx_uuid2rdn", "uuid", "rdn").map_err(|e| ("harness: raw table", format!("{e:?}")))?.into_iter().map(|(k, v)| (k, text(&v))).collect();
+            let want_u2r: BTreeMap<String, String> = names.uuid2rdn.iter().map(|(k, v)| (k.as_hyphenated().to_string(), v.clone())).collect();
+            if raw_u2r != want_u2r {
+                return Err((SIG_U2R, first_diff(&raw_u2r, &want_u2r)));
+            }
+        }
+        // lookups as the server resolves them (through the name cache) against the scan
+        for (n, u) in &names.name2uuid {
+            match r.name_to_uuid(n) {
+                Ok(x) if x == *u => {}
+                other => return Err((SIG_LOOKUP, format!("name_to_uuid({n:?}) = {other:?}, scan says {u}"))),
+            }
+        }
+        for n in absent_probe {
+            if names.name2uuid.contains_key(n) || names.ambiguous.contains(n) {
+                continue;
+            }
+            match r.get_be_txn().name2uuid(n) {
+                Ok(None) => {}
+                other => return Err((SIG_LOOKUP, format!("name2uuid({n:?}) = {other:?} but no live entry carries that name"))),
+            }
+        }
+        for e in entries {
+            let u = e.get_uuid();
+            let be = r.get_be_txn();
+            let got_s = be.uuid2spn(u).map_err(|e| ("harness: uuid2spn failed", format!("{e:?}")))?.map(|v| spn_value_repr(&v));
+            if got_s.as_ref() != names.uuid2spn.get(&u) {
+                return Err((SIG_LOOKUP, format!("uuid2spn({u}) = {got_s:?}, scan says {:?}", names.uuid2spn.get(&u))));
+            }
+            let got_r = be.uuid2rdn(u).map_err(|e| ("harness: uuid2rdn failed", format!("{e:?}")))?;
+            if got_r.as_ref() != names.uuid2rdn.get(&u) {
+                return Err((SIG_LOOKUP, format!("uuid2rdn({u}) = {got_r:?}, scan says {:?}", names.uuid2rdn.get(&u))));
+            }
+        }
+        for (x, u) in &names.externalid2uuid {
+            match r.sync_external_id_to_uuid(x) {
+                Ok(Some(g)) if g == *u => {}
+                other => return Err((SIG_LOOKUP, format!("sync_external_id_to_uuid({x:?}) = {other:?}, scan says {u}"))),
+            }
+        }
+        // verify(): only the storage / index findings belong to this property; what the plugins and
+        // the change-state checker say (memberof, refint, change state, RUV ...) belongs to others
+        let v = hk::qs_verify(r);
+        const MINE: [&str; 7] = ["BackendIndexSync", "BackendAllIdsSync", "SqliteIntegrityFailure", "UuidIndexCorrupt", "EntryUuidCorrupt", "Unknown", "QueryServerSearchFailure"];
+        let (mine, other): (Vec<String>, Vec<String>) = v.into_iter().partition(|e| MINE.iter().any(|m| e.starts_with(m)));
+        if !mine.is_empty() {
+            return Err((SIG_VERIFY, format!("{mine:?}")));
+        }
+        stats.other_verify = other.into_iter().map(|e| e.split('(').next().unwrap_or("").to_string()).collect();
+        Ok(stats)
+    }
+
+    fn who(entries: &[E], id: u64) -> String {
+        entries
+            .iter()
+            .find(|e| e.get_id() == id)
+            .map(|e| format!("{} {:?} {:?}", e.get_uuid(), dump::status_of(e), dump::proto_values(e, Attribute::Name)))
+            .unwrap_or_else(|| "no stored entry has this id".into())
+    }
+
+    fn first_diff(have: &BTreeMap<String, String>, want: &BTreeMap<String, String>) -> String {
+        let keys: BTreeSet<&String> = have.keys().chain(want.keys()).collect();
+        for k in keys {
+            if have.get(k) != want.get(k) {
+                return format!("{k}: table has {:?}, from the entries {:?}", have.get(k), want.get(k));
+            }
+        }
+        String::new()
+    }
+
+    /// Canonical text of every index table and name table (for the reindex metamorphic check).
+    pub fn tables_fingerprint(r: &mut QueryServerReadTransaction<'_>) -> Result<BTreeMap<String, BTreeMap<String, String>>, String> {
+        let meta: Vec<Key> = hk::be::idxmeta_keys(r.get_be_txn());
+        let raw = raw_index(r, &meta)?;
+        let mut out: BTreeMap<String, BTreeMap<String, String>> = BTreeMap::new();
+        for (k, t) in raw.content {
+            out.insert(table_name(&k), t.into_iter().map(|(key, ids)| (key, format!("{ids:?}"))).collect());
+        }
+        let be = r.get_be_txn();
+        for (t, kc, vc) in [("idx_name2uuid", "name", "uuid"), ("idx_externalid2uuid", "eid", "uuid"), ("idx_uuid2spn", "uuid", "spn"), ("idx_uuid2rdn", "uuid", "rdn")] {
+            let rows = hk::be::raw_table(be, t, kc, vc).map_err(|e| format!("{e:?}"))?;
+            out.insert(t.to_string(), rows.into_iter().map(|(k, v)| (k, text(&v))).collect());
+        }
+        Ok(out)
     }
 }
